@@ -39,6 +39,17 @@ func (p *InsertionParameters) ValidateShape(treeDepth uint32, batchSize uint32) 
 	return nil
 }
 
+// bytes32BigEndian returns the big-endian bytes of v, left-padded with zeroes to
+// the 32 bytes a uint256 occupies in the on-chain packing.
+func bytes32BigEndian(v *big.Int) []byte {
+	b := v.Bytes()
+	// extend to 32 bytes if necessary, maintaining big-endian ordering
+	if len(b) < 32 {
+		b = append(make([]byte, 32-len(b)), b...)
+	}
+	return b
+}
+
 // ComputeInputHash computes the input hash to the prover and verifier.
 //
 // It uses big-endian byte ordering (network ordering) in order to agree with
@@ -52,15 +63,10 @@ func (p *InsertionParameters) ComputeInputHashInsertion() error {
 		return err
 	}
 	data = append(data, buf.Bytes()...)
-	data = append(data, p.PreRoot.Bytes()...)
-	data = append(data, p.PostRoot.Bytes()...)
+	data = append(data, bytes32BigEndian(&p.PreRoot)...)
+	data = append(data, bytes32BigEndian(&p.PostRoot)...)
 	for _, v := range p.IdComms {
-		idBytes := v.Bytes()
-		// extend to 32 bytes if necessary, maintaining big-endian ordering
-		if len(idBytes) < 32 {
-			idBytes = append(make([]byte, 32-len(idBytes)), idBytes...)
-		}
-		data = append(data, idBytes...)
+		data = append(data, bytes32BigEndian(&v)...)
 	}
 	hashBytes := keccak256.Hash(data)
 	p.InputHash.SetBytes(hashBytes)
